@@ -74,9 +74,9 @@ META["C09"] = {
   "note": "Level `other`: a relational lockstep proof was not built; the deductive part is the frame + functional characterisation.",
   "technique": TECH}
 META["C20"] = {
-  "text": "confusion_matrix, opf_accuracy, opf_accuracy_per_label and purity are under contract with recursive spec counters (pairs, false positives, false negatives, class sizes); loop invariants equate the accumulators with the counters, the vector statements go through assumed numpy contracts, and two counting lemmas (by induction on the prefix length) give the bounds: the accuracy formula, its range [0, 1] and 'equals 1 iff all predictions are correct' are discharged for every K >= 2 and every length; recall and the purity formula for every K. normalize is a static shape obligation. The remaining clauses (K = 1, purity bounds / iff, numeric normalize) are bounded run-time contracts against brute-force definitions.",
-  "design_ref": "DESIGN.md §3 C20",
-  "note": "Level `other` because part of the statement is bounded; numpy reductions by assumed contracts (listed).",
+  "text": "confusion_matrix, opf_accuracy, opf_accuracy_per_label and purity are under contract with recursive spec counters (pairs, false positives, false negatives, class and group sizes) and a recursively DEFINED real sum; loop invariants equate the accumulators with the counters, the vector statements go through assumed numpy contracts, and eight lemmas proved by emitted induction queries (counter bounds, pair counter vs. group size with equality iff the group is pure, group sizes add up to N by a double induction, monotonicity and zero test of sums) give the rest: the accuracy formula, its range [0, 1] and 'equals 1 iff all predictions are correct' are discharged for every K >= 2 and every length; recall, the purity formula, purity in (0, 1] and 'purity = 1 iff every predicted group is single-class' for every K. normalize is a static shape obligation. K = 1 for opf_accuracy and numeric normalize values are bounded run-time contracts against brute-force definitions.",
+  "design_ref": "DESIGN.md §3 C20, §7",
+  "note": "Over the reals. Assumed external numpy contracts (listed in the evidence): np.max, np.bincount, np.unique, np.nansum without NaN, np.sum = mathematical sum, numpy broadcasting for normalize.",
   "technique": TECH}
 META["C17"] = {
   "text": "Relevance marking and pruning are under contract and discharged: mark_nodes flags exactly the predecessor chain of its argument (and terminates, using the rank witness of fit's postcondition); predict passes the conqueror of each query to it; prune's selection loops retain exactly the non-IRRELEVANT samples with their own labels, and the final training set / model rows are an increasing re-indexing of the original arrays. `learn` is an open known finding (TypeError on the first validation error), listed in known_findings.json with its witness; the check prints KNOWN-FINDING for it and would report any other failure.",
